@@ -309,12 +309,13 @@ var preambles = [][]string{
 	{"a { b } \"c\" `d`", "x\ny\n", "#include <z.h>"},
 	{"#include <t.h>", "#include <t.h>"},
 	{"#define T int", "#include <tmpl.h>", "#define T long", "#include <tmpl.h>"},
+	{"#define MOD(a, b) ((a) % (b))", "static void p(char *s) { printf(\"%s %d%%\\n\", s, 1); }\n#define PCT 100%"},
 }
 
 func TestC19(t *testing.T) {
 	r := hx.Start(t, "C19")
 	defer r.Finish(t)
-	r.Rule("enumerated cross product {C introduced by Qual, Anon, both, preamble only} x 13 preamble lists (one-line, multi-line with/without trailing newline, raw // lines, raw /* */, mixtures, repeated blocks; one case in three also with the preamble supplied after a first render) x other imports {none, one, many, aliased, anonymous, dot, a path whose guess is c} x PackagePrefix on/off x hints {none, ImportName(C), ImportAlias(C), ImportAlias(C, .), ImportAlias(C, _), another path named C} x C referenced first/last; thorough adds rapid-generated preamble texts; non-trivial = a preamble together with >= 1 other import, or a prefix or a hint naming C; distinct by the case")
+	r.Rule("enumerated cross product {C introduced by Qual, Anon, both, preamble only} x 14 preamble lists (one-line, multi-line with/without trailing newline, raw // lines, raw /* */, mixtures, repeated blocks; one case in three also with the preamble supplied after a first render) x other imports {none, one, many, aliased, anonymous, dot, a path whose guess is c} x PackagePrefix on/off x hints {none, ImportName(C), ImportAlias(C), ImportAlias(C, .), ImportAlias(C, _), another path named C} x C referenced first/last; thorough adds rapid-generated preamble texts; non-trivial = a preamble together with >= 1 other import, or a prefix or a hint naming C; distinct by the case")
 	r.Assume("raw-form preamble texts are well-formed comments (one /*...*/, or // lines joined by single newlines, no trailing newline); preamble text is compared on the NoFormat twin, structure on the formatted output")
 	ck := hx.Check[Case]{Name: "cgo", Fn: check}
 	if !hx.Replay(r, ck) {
@@ -380,7 +381,7 @@ func TestC19(t *testing.T) {
 	})
 }
 
-var words = []string{"#include <a.h>", "#cgo CFLAGS: -O2", "int x;", "{", "}", "\"s\"", "`r`", "// mid", "/* mid", "é日本", "\t", " ", "static void f(void) {}", "*", "\\", "import \"C\"", "package q", "a/b", "'c'"}
+var words = []string{"#include <a.h>", "#cgo CFLAGS: -O2", "int x;", "{", "}", "\"s\"", "`r`", "// mid", "/* mid", "é日本", "\t", " ", "static void f(void) {}", "*", "\\", "import \"C\"", "package q", "a/b", "'c'", "#define MOD(a, b) ((a) % (b))", "printf(\"%s %d\\n\", s, n);", "100%", "%%", "%!s(MISSING)", "%v"}
 
 // genBlock draws one preamble text: automatic style (one-line or multi-line,
 // no leading comment marker, no */) or a well-formed raw comment.
